@@ -41,7 +41,7 @@ def run_one(path, repo='/repo'):
         for pid in sorted(set([p for p, _ in exp] + ben)):
             r = subprocess.run([os.path.join(ROOT, 'check'), pid, '--repo', d, '--evidence-dir', evd],
                                stdout=subprocess.PIPE, stderr=subprocess.STDOUT, text=True)
-            keys = re.findall(r'key=(\S+)', r.stdout)
+            keys = re.findall(r'key=(.+)', r.stdout)
             if 'INFRA' in r.stdout or 'fact extraction failed' in r.stdout:
                 res['status'] = 'broken'
                 res['detail'] += ' %s: mutant does not compile / extraction failed: %s' % (pid, r.stdout[-300:])
